@@ -558,3 +558,143 @@ Proof.
   cbn [v_start v_end].
   destruct a as [p|]; destruct b as [q|]; zcases; lia.
 Qed.
+
+(* the warning counters are never negative *)
+Lemma o_warns_nonneg_read : forall m v n, 0 <= o_warns (snd (read m v n)).
+Proof.
+  intros m v n. unfold read, read_plan. cbn [fst snd].
+  repeat match goal with |- context [if ?c then _ else _] => destruct c end; cbn [snd o_warns]; lia.
+Qed.
+
+Lemma o_warns_nonneg_write : forall v bs, 0 <= o_warns (snd (write v bs)).
+Proof.
+  intros v bs. unfold write, write_plan. cbn [fst snd].
+  repeat match goal with |- context [if ?c then _ else _] => destruct c end; cbn [snd o_warns]; lia.
+Qed.
+
+(* ------------------------------------------------------------------------------------------ *)
+(* the code as found (before the repairs): concrete escapes                                      *)
+(* ------------------------------------------------------------------------------------------ *)
+Definition hist_write_escape : list op := [OView 0 (Seek 6 0); OView 0 (Write [1; 2; 3; 4; 5; 6; 7; 8])].
+Definition hist_negative_seek : list op := [OView 0 (Seek (-4) 0); OView 0 (Read 4)].
+
+(* MemoryIO of 4 bytes at 100: seek(6); write(8 bytes) -- bytes[:-2] leaves 6 bytes, written at 106 *)
+Lemma write_escapes_orig : forall m,
+  exists st o out a bs,
+    In (st, o, out) (trace_orig (init 100 104 m) hist_write_escape)
+    /\ In (CWrite a bs) (o_calls out) /\ 104 < a + zlen bs.
+Proof.
+  intros m. eexists _, _, _, _, _. split; [|split].
+  - right. left. reflexivity.
+  - left. reflexivity.
+  - vm_compute. reflexivity.
+Qed.
+
+Lemma write_escapes_orig_not_confined : forall m,
+  ~ Forall confined_event (trace_orig (init 100 104 m) hist_write_escape).
+Proof.
+  intros m H. inversion H as [|e1 l1 _ H1]; subst. inversion H1 as [|e2 l2 H2 _]; subst.
+  cbn in H2. destruct (H2 _ (or_introl eq_refl)) as (v & Hv & Hin).
+  injection Hv as Hv. subst v. vm_compute in Hin. destruct Hin as (_ & Hbad & _). apply Hbad. reflexivity.
+Qed.
+
+(* the same history on the code as it is now stays inside (instance of history_confined) *)
+Lemma write_escape_repaired : forall m,
+  map (fun e => o_calls (snd e)) (trace (init 100 104 m) hist_write_escape) = [[]; []].
+Proof. intros m. reflexivity. Qed.
+
+(* MemoryIO of 4 bytes at 100: seek(-4); read(4) reads [96, 100) *)
+Lemma negative_seek_escapes_orig : forall m,
+  exists st o out a n,
+    In (st, o, out) (trace_orig (init 100 104 m) hist_negative_seek)
+    /\ In (CRead a n) (o_calls out) /\ a < 100 /\ 0 < n.
+Proof.
+  intros m. eexists _, _, _, _, _. split; [|split].
+  - right. left. reflexivity.
+  - left. reflexivity.
+  - vm_compute. split; reflexivity.
+Qed.
+
+Lemma negative_seek_repaired : forall m,
+  map (fun e => o_calls (snd e)) (trace (init 100 104 m) hist_negative_seek) = [[]; []].
+Proof. intros m. reflexivity. Qed.
+
+(* MemoryIO of 10 bytes at 10: close(); then [2:6] of the closed view is a live view that reads *)
+Lemma slice_after_close_orig : forall m,
+  let st := run_with step_orig (init 10 20 m) [OView 0 Close] in
+  (exists v, nth_error (st_views st) 0 = Some v /\ v_closed v = true)
+  /\ let st' := fst (step_orig st (OView 0 (Slice (Some 2) (Some 6) None))) in
+     o_res (snd (step_orig st (OView 0 (Slice (Some 2) (Some 6) None)))) = Ok (VView 12 16)
+     /\ (exists w, nth_error (st_views st') 1 = Some w /\ dead (st_freed st') w = false)
+     /\ o_calls (snd (step_orig st' (OView 1 (Read 4)))) = [CRead 12 4].
+Proof.
+  intros m. cbv zeta. split; [eexists; split; reflexivity|].
+  split; [reflexivity|]. split; [eexists; split; reflexivity|reflexivity].
+Qed.
+
+(* on the code as it is now the slice fails *)
+Lemma slice_after_close_repaired : forall m,
+  snd (step (run (init 10 20 m) [OView 0 Close]) (OView 0 (Slice (Some 2) (Some 6) None))) = err 0.
+Proof. intros m. reflexivity. Qed.
+
+(* ------------------------------------------------------------------------------------------ *)
+(* the hypotheses are satisfiable, and histories do transfer                                     *)
+(* ------------------------------------------------------------------------------------------ *)
+Definition ex_history : list op :=
+  [OView 0 (Write [1; 2; 3]); OView 0 (Slice (Some 1) (Some (-6)) None); OView 1 (Read (-1));
+   OView 1 (Slice (Some (-1)) None None); OView 2 (Write [9; 9]); OView 0 (Seek 0 0); OView 0 (Read 4)].
+
+Lemma ex_history_runs :
+  views_inside (init 100 110 (fun _ => 0))
+  /\ map (fun e => (o_res (snd e), o_calls (snd e))) (trace (init 100 110 (fun _ => 0)) ex_history)
+     = [(Ok (VInt 3), [CWrite 100 [1; 2; 3]]); (Ok (VView 101 104), []);
+        (Ok (VBytes [2; 3; 0]), [CRead 101 3]); (Ok (VView 103 104), []);
+        (Ok (VInt 1), [CWrite 103 [9]]); (Ok VNone, []); (Ok (VBytes [1; 2; 3; 9]), [CRead 100 4])].
+Proof. split; [apply init_inside | reflexivity]. Qed.
+
+(* ------------------------------------------------------------------------------------------ *)
+(* nothing leaves the allocation                                                                *)
+(* ------------------------------------------------------------------------------------------ *)
+Lemma trace_root : forall ops st r,
+  nth_error (st_views st) 0 = Some r ->
+  Forall (fun ev => exists r', nth_error (st_views (fst (fst ev))) 0 = Some r'
+                               /\ v_start r' = v_start r /\ v_end r' = v_end r) (trace st ops).
+Proof.
+  induction ops as [|o rest IH]; intros st r Hr.
+  - constructor.
+  - rewrite trace_cons. destruct (step st o) as [st' out] eqn:Hstep. cbn [fst snd].
+    constructor.
+    + exists r. cbn [fst]. repeat split. exact Hr.
+    + destruct (step_ranges_fixed _ _ _ _ _ _ Hstep Hr) as (r' & Hr' & Hs & He & _).
+      specialize (IH st' r' Hr'). rewrite Hs, He in IH. exact IH.
+Qed.
+
+Lemma call_within_mono : forall lo hi v c,
+  inside lo hi v -> call_within (v_start v) (v_end v) c -> call_within lo hi c.
+Proof. intros lo hi v c Hin Hc. unfold inside in Hin. destruct c; cbn in *; try lia. Qed.
+
+Theorem allocation_confined : forall s e m ops st o out c,
+  In (st, o, out) (trace (init s e m) ops) -> In c (o_calls out) ->
+  match c with
+  | CFree a => a = s
+  | _ => call_within s (Z.max s e) c
+  end.
+Proof.
+  intros s e m ops st o out c Hev Hc.
+  destruct (history_confined ops (init s e m) (init_inside s e m)) as (Hall & _).
+  rewrite Forall_forall in Hall. destruct (Hall _ Hev) as (Hin & Hconf & _). cbn [fst] in Hin.
+  pose proof (trace_root ops (init s e m) (new_view s e) eq_refl) as Hroot.
+  rewrite Forall_forall in Hroot. destruct (Hroot _ Hev) as (r' & Hr' & Hrs & Hre). cbn [fst] in Hr'.
+  cbn [new_view v_start v_end] in Hrs, Hre.
+  unfold views_inside in Hin.
+  destruct (st_views st) as [|root t] eqn:Hviews; [discriminate|].
+  cbn [nth_error] in Hr'. injection Hr' as Hr'. subst r'.
+  destruct o as [i vo|]; cbn in Hconf.
+  - destruct (Hconf c Hc) as (v & Hv & Hcw). rewrite Hviews in Hv.
+    assert (Hvin : inside (v_start root) (v_end root) v) by (eapply nth_error_Forall; eassumption).
+    rewrite Hrs, Hre in Hvin.
+    pose proof (call_within_mono _ _ _ _ Hvin Hcw) as Hw.
+    destruct c; [exact Hw | exact Hw | cbn in Hcw; contradiction].
+  - destruct (Hconf c Hc) as (root' & Hr0 & Hceq). rewrite Hviews in Hr0. cbn in Hr0.
+    injection Hr0 as Hr0. subst root' c. exact Hrs.
+Qed.
